@@ -20,6 +20,14 @@ CLAIMS = {
              "in the code shape on every path, which no test schedule can enumerate.",
         technique="MIR dominance + forward must-dataflow (clean-writer typestate) + who-may-write field scan + call-chain check",
         ref="DESIGN.md §3 C09"),
+    "C12": dict(
+        text="Decides structural clauses of C12: R12.1 object-before-pointer (put Ok-dominates manifest save), R12.2 "
+             "pointer-before-delete, R12.3 atomic pointer swap (put temp -> rename, nothing in between, the live manifest key only "
+             "used by get/exists/rename-destination), R12.4 a failed flush restores the taken buffer on every Err exit, R12.5 success "
+             "reported only after the swap, R12.6 load/put/save failures are propagated (no fallback to a stale manifest). These are "
+             "ordering facts on every path between object-store calls - exactly the crash/fault points tests cannot enumerate.",
+        technique="MIR dominance over awaited Result edges in pre-lowering coroutine bodies, path search for buffer restore, who-may-use field scan",
+        ref="DESIGN.md §3 C12"),
 }
 
 PENDING_REASON = "check not built yet (build in progress; DESIGN.md §3 lists the planned structural clauses)"
